@@ -183,6 +183,22 @@ func (a *app) Query(req abci.RequestQuery) abci.ResponseQuery {
 // ValueOp computes for the claimed value "A"
 var hashLikeValue = merkle.HashFromByteSlices([][]byte{kvLeafBytes(nil, []byte("A"))})
 
+// light-client-attack evidence built around a (genuine) earlier light block: structurally valid,
+// which is all Block.ValidateBasic and the recording evidence pool ask for
+func lcaEvidence(c *chain, h int64) types.Evidence {
+	pb, err := c.lbs[h].ToProto()
+	if err != nil {
+		panic(err)
+	}
+	lb, err := types.LightBlockFromProto(pb)
+	if err != nil {
+		panic(err)
+	}
+	byz := []*types.Validator{lb.ValidatorSet.Validators[0].Copy()}
+	return &types.LightClientAttackEvidence{ConflictingBlock: lb, CommonHeight: h, ByzantineValidators: byz,
+		TotalVotingPower: lb.ValidatorSet.TotalVotingPower(), Timestamp: lb.Time}
+}
+
 // ---- chain ----
 
 type chainSpec struct {
@@ -193,10 +209,11 @@ type chainSpec struct {
 	txs     bool
 	paramAt int64
 	uniq    bool // every transaction distinct (the kv tx index keeps one record per hash)
+	evid    bool // blocks carry evidence (duplicate-vote and light-client-attack)
 }
 
 func (s chainSpec) key() string {
-	return fmt.Sprintf("%d/%d/%d/%v/%v/%d/%v", s.seed, s.n, s.nv, s.events, s.txs, s.paramAt, s.uniq)
+	return fmt.Sprintf("%d/%d/%d/%v/%v/%d/%v/%v", s.seed, s.n, s.nv, s.events, s.txs, s.paramAt, s.uniq, s.evid)
 }
 
 type chain struct {
@@ -300,7 +317,19 @@ func buildChain(spec chainSpec) *chain {
 		}
 		c.txsAt[h] = txs
 		prop := state.Validators.GetProposer().Address
-		block, parts := state.MakeBlock(h, txs, lastCommit, nil, prop)
+		var evs []types.Evidence
+		if spec.evid && h >= 2 {
+			if r.Intn(3) != 0 {
+				evs = append(evs, lcaEvidence(c, h-1))
+			}
+			if r.Intn(2) == 0 {
+				evs = append(evs, mockEvidence(c, h-1, int(h)))
+			}
+			if len(evs) == 2 && r.Intn(2) == 0 {
+				evs[0], evs[1] = evs[1], evs[0]
+			}
+		}
+		block, parts := state.MakeBlock(h, txs, lastCommit, evs, prop)
 		blockID := types.BlockID{Hash: block.Hash(), PartSetHeader: parts.Header()}
 		vals := state.Validators.Copy()
 		newState, _, err := exec.ApplyBlock(state, blockID, block)
